@@ -94,13 +94,13 @@ def main():
                 V.violation('negative:' + key, f'score {s!r} meaningfully negative', c)
             elif s > min(hy, hx) + MC.tol(min(hy, hx), hy):
                 V.violation('bound:' + key, f'score {s!r} exceeds min entropy {min(hy, hx)!r}', c)
-            if c['y'] == c['x'] and abs(s - hy) > MC.tol(hy, hy):
+            if c['y'] == c['x'] and not (abs(s - hy) <= MC.tol(hy, hy)):
                 V.violation('self:' + key, f'self score {s!r} != entropy {hy!r}', c)
-            if (len(set(c['y'])) == 1 or len(set(c['x'])) == 1) and abs(s) > MC.tol(0, hy + hx):
+            if (len(set(c['y'])) == 1 or len(set(c['x'])) == 1) and not (abs(s) <= MC.tol(0, hy + hx)):
                 V.violation('constant:' + key, f'score {s!r} != 0 with a constant vector', c)
         for (yy, xx), s in index.items():
             s2 = index.get((xx, yy))
-            if s2 is not None and abs(s - s2) > MC.tol(s, 2.0):
+            if s2 is not None and not (abs(s - s2) <= MC.tol(s, 2.0)):
                 V.violation(f'symmetry:{label}:Y={list(yy)} X={list(xx)}', f'score(Y,X)={s!r} but score(X,Y)={s2!r}', {'y': yy, 'x': xx})
         V.count(evaluations=len(cases), nontrivial=nontriv, traces=len(cases) - len(crashes))
         V.add_sample({'family': label, 'Y': cases[len(cases) // 2]['y'], 'X': cases[len(cases) // 2]['x'],
@@ -165,13 +165,13 @@ def main():
         case = {'family': name, 'n': n, 'seed': seed, 'Y_head': y[:20], 'X_head': x[:20]}
         if len(set(y)) > 1 and len(set(x)) > 1:
             nontriv += 1
-        if abs(s - e) > MC.tol(e, hy):
+        if not (abs(s - e) <= MC.tol(e, hy)):
             V.violation('plugin:' + key, f'score {s!r} != plug-in MI {e!r}', case)
-        if abs(s - s2) > MC.tol(e, hy + hx):
+        if not (abs(s - s2) <= MC.tol(e, hy + hx)):
             V.violation('symmetry:' + key, f'score(Y,X)={s!r} score(X,Y)={s2!r}', case)
         if s < -MC.tol(0, hy) or s > min(hy, hx) + MC.tol(hy, hy):
             V.violation('bound:' + key, f'score {s!r} outside [0, min(H)={min(hy, hx)!r}]', case)
-        if y == x and abs(s - hy) > MC.tol(hy, hy):
+        if y == x and not (abs(s - hy) <= MC.tol(hy, hy)):
             V.violation('self:' + key, f'self score {s!r} != entropy {hy!r}', case)
     V.count(evaluations=2 * len(big), nontrivial=nontriv, traces=len(big))
     V.add_sample({'family': big[-3][0], 'n': big[-3][1], 'real_score': got[-6], 'oracle': O.value(O.n_plugin(big[-3][2], big[-3][3]), big[-3][1])})
